@@ -28,8 +28,11 @@ for f in sorted(os.listdir(os.path.join(V, 'kani'))):
         if any(re.search(r'cfg\((verif_|any\(\))', a) for a in attrs):
             continue   # written but not closed: compiled out, not registered
         name = m.group(2)
-        tier, kind, bound = 'quick', 'complete', ''
+        tier, kind, bound, also = 'quick', 'complete', '', []
         for c in comments:
+            al = re.search(r'ALSO:\s*((?:C\d\d[ ,]*)+)', c)
+            if al:
+                also = re.findall(r'C\d\d', al.group(1))
             t = re.search(r'TIER:\s*(quick!?|thorough)', c)
             if t:
                 tier = t.group(1)
@@ -40,7 +43,7 @@ for f in sorted(os.listdir(os.path.join(V, 'kani'))):
         if name in idx:
             print('duplicate harness name', name, file=sys.stderr)
             sys.exit(1)
-        idx[name] = dict(prop='C' + m.group(3), tier=tier, kind=kind, bound=bound, file=f,
+        idx[name] = dict(prop='C' + m.group(3), also=also, tier=tier, kind=kind, bound=bound, file=f,
                          expect='known-finding' if re.match(r'c\d\d_kf_', name) else None)
 # measured verdicts/timings (./verif expect-update): a harness that did not close there is not registered;
 # one that needs more than QUICK_MAX seconds of CBMC is moved to the thorough tier whatever its comment says.
